@@ -583,7 +583,7 @@ func (s *System) apply(a action) error {
 			s.hosts[i].now = s.hosts[i].now.Add(dur)
 		}
 		s.fire(a.to)
-		s.release()
+		s.release(a.to)
 	case 'E':
 		h := s.hosts[a.to]
 		if h == nil || h.finished || h.alarm.IsZero() {
@@ -593,7 +593,7 @@ func (s *System) apply(a action) error {
 			h.now = h.alarm
 		}
 		s.fire(a.to)
-		s.release()
+		s.release(a.to)
 	case 'B':
 		m, err := s.byzBuild(a.spec)
 		if err != nil {
@@ -621,11 +621,21 @@ func (s *System) apply(a action) error {
 	return nil
 }
 
-// release re-enqueues held messages (called after a timer event).
-func (s *System) release() {
-	if len(s.held) > 0 {
-		s.queue = append(s.queue, s.held...)
-		s.held = nil
+// release re-enqueues the held messages addressed to p (called after a timer event at p): a held message
+// arrives "one timeout late" at its recipient.
+func (s *System) release(p int) {
+	var keep []delivery
+	released := false
+	for _, d := range s.held {
+		if d.to == p {
+			s.queue = append(s.queue, d)
+			released = true
+		} else {
+			keep = append(keep, d)
+		}
+	}
+	s.held = keep
+	if released {
 		s.noteStabilisation()
 	}
 }
